@@ -404,8 +404,72 @@ UNITS = [
          assumed=['memunit_distance of two step iterators is the memunit_distance of their bases (step_iterator.hpp, one line), i.e. the difference of their addresses']),
 ] + bits.units('C03', sizes=((1, 'quick'), (3, 'quick'), (4, 'thorough'), (7, 'thorough'), (13, 'thorough')))
 
+# ---------------------------------------------------------------------------------------------------------------------------------------
+# planar_pixel_iterator: operator[], distance_to, memunit_step, memunit_distance (planar_pixel_iterator.hpp)
+PL = 'planar_pixel_iterator.hpp'
+X_PLANAR = [
+    X('pl_index', PL, r'reference operator\[\]\(difference_type d\)\s*const \{ return (.*?);\}', kind='expr',
+      rules=[('R11.adv_ref', r'memunit_advanced_ref\(\*this,', 'MEMUNIT_ADVANCED_REF(self,', True)]),
+    X('pl_distance_to', PL, r'std::ptrdiff_t distance_to\(const planar_pixel_iterator& it\) const \{ return (.*?); \}', kind='expr',
+      rules=[('R15.ptrdiff', r'gil::at_c<0>\(it\)-gil::at_c<0>\(\*this\)', 'CHPTR_DIFF(it->p[0], self->p[0])', True)]),
+    X('pl_memunit_step', PL, r'inline auto memunit_step\(planar_pixel_iterator<IC,C> const&\)\s*->\s*std::ptrdiff_t\s*\{', count=1,
+      rules=[('R8.vt', r'sizeof\(typename std::iterator_traits<IC>::value_type\)', 'CH_SIZE', True)]),
+    X('pl_memunit_distance', PL, r'inline auto memunit_distance\(planar_pixel_iterator<IC,C> const& p1, planar_pixel_iterator<IC,C> const& p2\)\s*->\s*std::ptrdiff_t\s*\{', count=1,
+      rules=[('R11.dist', r'memunit_distance\(gil::at_c<0>\(p1\),gil::at_c<0>\(p2\)\)', 'RAW_MEMUNIT_DISTANCE(p1->p[0], p2->p[0])', True)]),
+]
+PLANAR_C = r'''
+typedef ptrdiff_t difference_type; typedef CH_T channel_t;
+#define CH_SIZE ((ptrdiff_t)sizeof(channel_t))
+#define SMAX ((int64_t)1 << 40)
+#define CMAX ((int64_t)1 << 20)
+typedef struct { int64_t p[3]; } planar_it_t;          /* planar_pixel_iterator: one channel pointer per plane (addresses in bytes) */
+typedef struct { int64_t p[3]; } planar_ref_t;         /* planar_pixel_reference: the addresses of its three channels */
+/* planar_pixel_reference(ptr, diff): channel k is *memunit_advanced(plane pointer k, diff), i.e. diff BYTES after the plane pointer */
+static planar_ref_t MEMUNIT_ADVANCED_REF(const planar_it_t* it, ptrdiff_t diff) { planar_ref_t r; r.p[0] = it->p[0] + diff; r.p[1] = it->p[1] + diff; r.p[2] = it->p[2] + diff; return r; }
+/* difference of two channel pointers in elements; memunit_distance of two raw pointers in bytes (unit rawptr) */
+#define CHPTR_DIFF(a, b) (((a) - (b)) / CH_SIZE)
+#define RAW_MEMUNIT_DISTANCE(a, b) ((b) - (a))
+planar_ref_t pl_index(const planar_it_t* self, difference_type d) { return @@pl_index@@; }
+ptrdiff_t pl_distance_to(const planar_it_t* self, const planar_it_t* it) { return @@pl_distance_to@@; }
+ptrdiff_t pl_memunit_step(const planar_it_t* unused) @@pl_memunit_step@@
+ptrdiff_t pl_memunit_distance(const planar_it_t* p1, const planar_it_t* p2) @@pl_memunit_distance@@
+#ifndef VERIF_NATIVE
+#define IT_OK(it) (-SMAX <= (it).p[0] && (it).p[0] <= SMAX && -SMAX <= (it).p[1] && (it).p[1] <= SMAX && -SMAX <= (it).p[2] && (it).p[2] <= SMAX)
+void hz_planar(void){ planar_it_t it, jt; difference_type d; __CPROVER_assume(IT_OK(it) && -CMAX <= d && d <= CMAX);
+  /* jt = it + d: every plane pointer advanced by d elements (inc / dec / plus_asymmetric on typed channel pointers) */
+  jt.p[0] = it.p[0] + d * CH_SIZE; jt.p[1] = it.p[1] + d * CH_SIZE; jt.p[2] = it.p[2] + d * CH_SIZE;
+  planar_ref_t r = pl_index(&it, d);
+  __CPROVER_assert(r.p[0] == jt.p[0] && r.p[1] == jt.p[1] && r.p[2] == jt.p[2], "planar_pixel_iterator: it[d] is the pixel *(it + d) in every plane");
+  __CPROVER_assert(pl_distance_to(&it, &jt) == d, "planar_pixel_iterator: (it + d) - it == d");
+  __CPROVER_assert(pl_memunit_distance(&it, &jt) == d * pl_memunit_step(&it), "planar_pixel_iterator: memunit_distance(it, it + d) == d * memunit_step(it)");
+  __CPROVER_assert(pl_memunit_step(&it) == CH_SIZE, "planar_pixel_iterator: memunit_step is the size of one channel");
+  __CPROVER_assert(0, "VACUITY"); }
+#endif
+'''
+REPLAY_PLANAR = r'''
+#include <boost/gil.hpp>
+#include <vector>
+#include "vreplay.hpp"
+using namespace boost::gil;
+#include "inst.hpp"
+int main(int argc, char** argv){ vr::parse(argc, argv);
+  using img_t = image<pixel<CH, rgb_layout_t>, true>; img_t img(5, 3); auto v = view(img);
+  for (long y = 0; y < 3; y++) { auto it = v.row_begin(y); for (long x = 0; x < 5; x++) for (long d = -x; d < 5 - x; d++) { auto at = it + x;
+    if ((const void*)&at[d][0] != (const void*)&v(x + d, y)[0] || (const void*)&at[d][2] != (const void*)&v(x + d, y)[2])
+      REPRODUCED("planar x-iterator at (%ld,%ld): it[%ld] is not pixel (%ld,%ld) (off by %td bytes in plane 0)", x, y, d, x + d, y, (const char*)&at[d][0] - (const char*)&v(x + d, y)[0]);
+    if ((at + d) - at != d) REPRODUCED("planar x-iterator: (it + %ld) - it == %td", d, (at + d) - at); } }
+  NOT_REPRODUCED("planar iterator subscripting agrees with view(x,y)"); }
+'''
+
+for _n, _t in (('u8', 'std::uint8_t'), ('u16', 'std::uint16_t'), ('f32', 'float')):
+    UNITS.append(Unit('planar_it.' + _n, 'C03', PLANAR_C, extracts=X_PLANAR, replay=REPLAY_PLANAR, probe_includes=['boost/gil.hpp'], probe='P_TYPE("CH_T", CH);',
+                      insts=[(_n, 'quick', {'T_CH': _t})], checks=[Check('planar', 'hz_planar', engine='Z', timeout=300, inputs=('d',))],
+                      preconditions=['plane addresses <= 2^40, |d| <= 2^20'],
+                      assumed=['planar_pixel_reference(ptr, diff) addresses, in every plane, the channel diff bytes after the plane pointer (memunit_advanced of a raw pointer, unit rawptr)',
+                               'increment / decrement / advance move every plane pointer by whole channels (static_transform over typed channel pointers)']))
+
 META = dict(
-    not_covered=['planar_pixel_iterator / position_iterator / virtual locator navigation (template plumbing over the same one-line memunit functions; not extracted)',
+    not_covered=['planar_pixel_iterator increment / advance (static_transform plumbing) / position_iterator / virtual locator navigation (template plumbing over the same one-line memunit functions; not extracted)',
                  'image_view accessor bodies are covered through their index expressions in the lemmas law_at_xy / law_end_minus_begin, not cut verbatim'],
 )
 
